@@ -46,7 +46,8 @@ Inductive rl_phase :=
 
 Inductive rl_ev :=
 | RLoginOk                      (* login() returned a connection and a LoginResp without error *)
-| RLoginFail                    (* dial error, write/read error, or LoginResp.Error *)
+| RLoginFail                    (* login() failed before an answer: connector/dial, SetLogin, write or read error *)
+| RLoginRefused                 (* the server answered with LoginResp.Error != "" *)
 | RSessionEnd                   (* ctl.Done(): control connection lost / heartbeat timeout / Pong error *)
 | RReload (cfgs : list (Z * Z)) (* UpdateAllConfigurer *)
 | RStop.
@@ -55,38 +56,53 @@ Record rl_svc := {
   rl_cfg : list (Z * Z);              (* svr.proxyCfgs *)
   rl_ctl : option (list (Z * Z));     (* the live Control's proxy manager map *)
   rl_phase_of : rl_phase;
+  rl_exit_now : bool;                 (* the firstLoginExit argument of the loopLoginUntilSuccess that is running or
+                                         will run next: Run passes LoginFailExit, keepControllerWorking a constant *)
+  rl_exit_re : bool;                  (* that constant (gen_relogin_exit: false in the source) *)
   rl_attempts : Z;                    (* login attempts made *)
   rl_history : list (list (Z * Z))    (* what each session registered at its Run, newest first *)
 }.
 
-Definition rl_init (cfg : list (Z * Z)) : rl_svc :=
-  {| rl_cfg := cfg; rl_ctl := None; rl_phase_of := PLogin; rl_attempts := 0; rl_history := [] |}.
+(* [exit_first] = common.LoginFailExit (default true); [exit_re] = the argument keepControllerWorking passes *)
+Definition rl_init (cfg : list (Z * Z)) (exit_first exit_re : bool) : rl_svc :=
+  {| rl_cfg := cfg; rl_ctl := None; rl_phase_of := PLogin; rl_exit_now := exit_first; rl_exit_re := exit_re;
+     rl_attempts := 0; rl_history := [] |}.
+
+(* loginFunc, error path: `if firstLoginExit { svr.cancel(cancelErr{Err: err}) }; return false, err`.
+   login() itself never cancels: a refusal is an error like any other. *)
+Definition rl_login_failed (s : rl_svc) : rl_svc :=
+  {| rl_cfg := rl_cfg s; rl_ctl := rl_ctl s;
+     rl_phase_of := if rl_exit_now s then PStopped else PLogin;
+     rl_exit_now := rl_exit_now s; rl_exit_re := rl_exit_re s;
+     rl_attempts := rl_attempts s + 1; rl_history := rl_history s |}.
 
 Definition rl_step (s : rl_svc) (e : rl_ev) : rl_svc :=
   match rl_phase_of s, e with
   | PStopped, _ => s
   | _, RStop =>
-      {| rl_cfg := rl_cfg s; rl_ctl := None; rl_phase_of := PStopped; rl_attempts := rl_attempts s;
-         rl_history := rl_history s |}
+      {| rl_cfg := rl_cfg s; rl_ctl := None; rl_phase_of := PStopped; rl_exit_now := rl_exit_now s;
+         rl_exit_re := rl_exit_re s; rl_attempts := rl_attempts s; rl_history := rl_history s |}
   | PLogin, RLoginOk =>
       let m := rl_fresh (rl_cfg s) in
-      {| rl_cfg := rl_cfg s; rl_ctl := Some m; rl_phase_of := PRunning; rl_attempts := rl_attempts s + 1;
-         rl_history := m :: rl_history s |}
-  | PLogin, RLoginFail =>
-      {| rl_cfg := rl_cfg s; rl_ctl := rl_ctl s; rl_phase_of := PLogin; rl_attempts := rl_attempts s + 1;
-         rl_history := rl_history s |}
+      (* this loopLoginUntilSuccess is over; every later one is started by keepControllerWorking *)
+      {| rl_cfg := rl_cfg s; rl_ctl := Some m; rl_phase_of := PRunning; rl_exit_now := rl_exit_re s;
+         rl_exit_re := rl_exit_re s; rl_attempts := rl_attempts s + 1; rl_history := m :: rl_history s |}
+  | PLogin, RLoginFail => rl_login_failed s
+  | PLogin, RLoginRefused => rl_login_failed s
   | PRunning, RSessionEnd =>
       (* worker: pm.Close(); close(doneCh).  keepControllerWorking's f returns an error, BackoffUntil
-         waits and calls f again: loopLoginUntilSuccess *)
-      {| rl_cfg := rl_cfg s; rl_ctl := None; rl_phase_of := PLogin; rl_attempts := rl_attempts s;
-         rl_history := rl_history s |}
+         waits and calls f again: loopLoginUntilSuccess(…, rl_exit_re) *)
+      {| rl_cfg := rl_cfg s; rl_ctl := None; rl_phase_of := PLogin; rl_exit_now := rl_exit_re s;
+         rl_exit_re := rl_exit_re s; rl_attempts := rl_attempts s; rl_history := rl_history s |}
   | _, RReload cfgs =>
       {| rl_cfg := cfgs;
          rl_ctl := match rl_ctl s with Some m => Some (rl_update_all m cfgs) | None => None end;
-         rl_phase_of := rl_phase_of s; rl_attempts := rl_attempts s; rl_history := rl_history s |}
+         rl_phase_of := rl_phase_of s; rl_exit_now := rl_exit_now s; rl_exit_re := rl_exit_re s;
+         rl_attempts := rl_attempts s; rl_history := rl_history s |}
   | PLogin, RSessionEnd => s      (* no session to end *)
   | PRunning, RLoginOk => s       (* no login in progress *)
   | PRunning, RLoginFail => s
+  | PRunning, RLoginRefused => s
   end.
 
 Definition rl_run (s : rl_svc) (evs : list rl_ev) : rl_svc := fold_left rl_step evs s.
